@@ -21,6 +21,9 @@ CHECKS = {
  "C19": ("model_checking", "stateless model checking under the controlled scheduler with ThreadSanitizer inside each schedule: all pairs of concurrent loads (preemptible at every access to a mutable package-level variable) and all schedules of the service fan-out up to the preemption bound",
          "(a) every ordered pair of 11 corpus inputs is loaded by two controlled threads; the instrumenter inserts a scheduling point before every statement touching a package-level variable that is assigned outside init, so a load can be preempted exactly where cross-load shared state is touched; baton hand-offs are hidden from ThreadSanitizer, so unsynchronised conflicting accesses are reported on the schedule that separates them; results are compared with the load run alone. (b) WithServicesTransform on 0..4 services x error injection at every subset of <=2 services x every schedule within the bound: deadlock, leaked goroutine, wrong/partial result, wrong error, receiver modified, data race.",
          "Trusted: as C13, plus the patched sync.Pool (drops items under -race so pooled objects do not order threads). Real synchronisation in uninstrumented third-party code can still mask a race between two loads.", "§3 E1, §4 C19", "E1 E2 E5"),
+ "C14": ("model_checking", "explicit-state BFS over operation sequences, each transition executed by the real derivation method on a reflection-populated project; invariants (receiver unchanged, no shared mutable state, footprint) checked in every transition",
+         "Initial states: a project in which reflection made every field of every model type non-zero (so new fields are covered automatically) and two loaded corpus projects. Transitions: 40 operation x argument combinations (profiles, enable, disable, select x 3 policies, prune, images, environment, labels, transform with a mutating callback, ForEachService with a mutating visitor, YAML/JSON rendering with and without secret content). BFS to depth 2 (3 thorough, each transition also under 8 map-iteration rotations) with canonical state hashing. Oracles per transition: receiver reflect.DeepEqual to a reflective snapshot; no map, slice backing array or pointer reachable from both result and receiver (Extensions payloads exempt); every top-level field outside the operation's footprint equal.",
+         "Trusted: reflection walkers in props/reflectutil.go. Aliasing through unexported state of third-party types is not inspected.", "§4 C14", "E3 E5"),
 }
 
 NOT_YET = {}
